@@ -12,6 +12,7 @@ type Profile struct {
 	Expiry     bool // forget / long advances / stale-route cleanup
 	Dynamic    bool // connect / disconnect / addlocal during the run
 	Limits     int  // 0 none; 1 = small uniform limit; 2 = per-node limits; 3 = uniform limit at the boundary (diameter-1 / diameter / diameter+1)
+	Withdraws  bool // agents occasionally withdraw their local routes (WithdrawLocalRoutes, as agent.Stop does)
 	Tree       bool // topology is a random tree (unique paths: expectations under hop limits do not depend on delivery order)
 	Agent      bool // nodes through agent.New
 	Chain      bool // topology is a chain 0-1-..-(n-1)
@@ -120,6 +121,9 @@ func NewGen(r *vh.Rand, p Profile) (*Case, Gen) {
 		adj = RandomGraph(r, n)
 	}
 	c := &Case{N: n, UseAgent: p.Agent, Settle: true}
+	if p.Agent && r.Chance(1, 2) {
+		c.MgmtKey = true
+	}
 	c.Limits = make([]int, n)
 	switch p.Limits {
 	case 1:
@@ -279,6 +283,11 @@ func NewGen(r *vh.Rand, p Profile) (*Case, Gen) {
 				if p.Dups && len(v.InFlight) > 0 {
 					return Op{K: "deliver", I: pickIdx(v), Dup: true}, true
 				}
+			case x < 65:
+				if p.Withdraws {
+					return Op{K: "withdraw", A: r.Intn(n)}, true
+				}
+				return Op{K: "announce", A: r.Intn(n)}, true
 			case x < 73:
 				return Op{K: "announce", A: r.Intn(n)}, true
 			case x < 78:
